@@ -102,6 +102,10 @@ func allocs(a []string) string {
 	// the counter model is for the library's default level (info): the online-transition log line is built under
 	// IsInfo; the other kinds rotate the level per frame (pgen.RotateLevel), so it is set here explicitly
 	packet.Logger.SetLevel(fastlog.LevelInfo)
+	if len(a) > 6 { // the level as a seventh token
+		packet.Logger.SetLevel(map[string]fastlog.LogLevel{"error": fastlog.LevelError, "info": fastlog.LevelInfo, "debug": fastlog.LevelDebug}[a[6]])
+		defer packet.Logger.SetLevel(fastlog.LevelInfo)
+	}
 	c := pgen.CfgOfToks(a[0:4])
 	state := a[4]
 	frame := lib.UnHex(a[5])
@@ -149,6 +153,13 @@ func main() {
 	// calls BRANCH -> the set of functions that branch of Session.Parse calls, from the source (calls.go)
 	// ppa FAM MS tok..: allocations of every single Parse call with a ping pending (cmd/c01/punit, mode alloc)
 	r.Register("ppa", func(a []string) string { o, _ := punit.RunPingMode(a, "alloc"); return o })
+	// logs path: the log statements on Parse's path with their guarding level, from the source (calls.go)
+	r.Register("logs", func(a []string) string {
+		if txt, ok := sourceLogs(); ok {
+			return txt
+		}
+		return "unrecognised"
+	})
 	r.Register("calls", func(a []string) string {
 		m, ok := sourceCalls()
 		if !ok {
@@ -172,6 +183,11 @@ func main() {
 	})
 	if r.Replayed() {
 		return
+	}
+	if _, ok := sourceLogs(); ok {
+		r.Do("logs", "path")
+	} else {
+		r.Stat("logs.unrecognised", 1)
 	}
 	if m, ok := sourceCalls(); ok {
 		r.Do("calls", "branches")
@@ -222,6 +238,9 @@ func main() {
 			}
 			for id := 1; id <= 29; id++ {
 				for _, st := range states {
+					for _, lv := range []string{"error", "debug"} { // the log level is a mode of the cost
+						r.Do("alloc", append(pgen.DefaultCfg.Toks(), st, lib.Hex(frames[id]), lv)...)
+					}
 					obs := r.Do("alloc", append(pgen.DefaultCfg.Toks(), st, lib.Hex(frames[id]))...)
 					r.Stat("allocd."+src.name+"."+fam+"."+st+"="+obs, 1)
 					r.Stat(fmt.Sprintf("allocd.id%d=%s", id, obs), 1)
